@@ -80,4 +80,5 @@ e57b5cb C14
 69e04a0 C09
 77c373c C07
 205de03 C19
+9f911fd C13
 LIST
